@@ -40,6 +40,7 @@ var relations = []string{
 	"alias-short",   // point slices start at the same address but are one vertex shorter
 	"copy",          // deep copy
 	"copy-coord",    // deep copy with one coordinate changed to another number
+	"copy-ulp",      // deep copy with one coordinate moved by one unit in the last place
 	"copy-nan",      // deep copy with one coordinate replaced by a NaN
 	"copy-payload",  // deep copy with the payload of every NaN changed
 	"copy-zerosign", // deep copy with the sign of every zero flipped
@@ -225,6 +226,14 @@ func (c EqCase) operands() (a, b orb.Geometry) {
 				return v + 1
 			}
 			return 7 // NaN, infinities, huge
+		})
+	case "copy-ulp":
+		a = deepCopy(g)
+		b = editCoords(g, func(i int, v float64) float64 {
+			if i == k {
+				return math.Nextafter(v, math.Inf(1))
+			}
+			return v
 		})
 	case "copy-nan":
 		a = deepCopy(g)
@@ -424,5 +433,5 @@ func TestEnumEqualSpecial(t *testing.T) {
 			}
 		}
 	}
-	stats.Subspace("orb.Equal: 12 special values (4 NaN payloads, +-Inf, +-0, denormals, 1) at the first / last coordinate x 14 shapes of all kinds x 12 operand relationships x depth 0..3 (x shared wrappers for 'same')", size, true)
+	stats.Subspace("orb.Equal: 12 special values (4 NaN payloads, +-Inf, +-0, denormals, 1) at the first / last coordinate x 14 shapes of all kinds x 13 operand relationships x depth 0..3 (x shared wrappers for 'same')", size, true)
 }
